@@ -127,9 +127,12 @@ VARIABLES
   dead,     \* item keys kept alive only by removed directory objects that are still referenced
             \* (by the caller, or by the item <-> directory reference cycle until the GC runs)
   fresh,    \* TRUE right after a scan of all directories
+  scanning, \* directories whose scan is in flight: the walk runs in the executor, the result is
+            \* not applied yet ({} = no scan in flight)
+  scanAll,  \* the scan in flight is scan() over every shared directory
   n         \* length of the history
 
-vars == <<disk, shared, items, tm, dead, fresh, n>>
+vars == <<disk, shared, items, tm, dead, fresh, scanning, scanAll, n>>
 
 Key(i) == [f |-> i.f, own |-> i.own, v |-> i.v, q |-> i.q]
 Keys(its) == {Key(i) : i \in its}
@@ -149,6 +152,14 @@ Init ==
   /\ disk \in SUBSET {[f |-> f, v |-> 1] : f \in Files}
   /\ shared = {} /\ items = {} /\ tm = {} /\ dead = {}
   /\ fresh = FALSE /\ n = 0
+  /\ scanning = {} /\ scanAll = FALSE
+
+\* Histories are sequential except for one thing: a scan is not atomic.  While its directory
+\* walk runs in the executor (ScanBegin .. ScanEnd) the counts and the index can be read, files
+\* can change on disk and share modes can be updated.  Adding / removing directories or starting
+\* another scan while one is in flight is outside the histories of the property.
+Quiet == scanning = {}
+Same == UNCHANGED <<scanning, scanAll>>
 
 \* What the WeakSets of the term map still hold once `its` are the items of the shared
 \* directories and `dd` the items of dead-but-referenced directory objects.
@@ -162,6 +173,7 @@ MoveOnAdd(its, S, d) ==
        {IF i.d = p /\ IsUnder(i.f, d) THEN [i EXCEPT !.d = d] ELSE i : i \in its}
 
 Add(d) ==
+  /\ Quiet /\ Same
   /\ d \notin shared
   /\ items' = MoveOnAdd(items, shared, d)
   /\ shared' = shared \cup {d}
@@ -177,6 +189,7 @@ MoveOnRemove(its, S, d) ==
        {IF i.d = d THEN [i EXCEPT !.d = p] ELSE i : i \in its}
 
 Remove(d) ==
+  /\ Quiet /\ Same
   /\ d \in shared
   /\ shared' = shared \ {d}
   /\ items' = MoveOnRemove(items, shared \ {d}, d)
@@ -187,6 +200,7 @@ Remove(d) ==
 
 \* manager.py:420-445  update_shared_directory: share mode only
 Update(d) ==
+  /\ Same
   /\ d \in shared
   /\ fresh' = FALSE /\ Step
   /\ UNCHANGED <<disk, shared, items, tm, dead>>
@@ -206,9 +220,29 @@ ScanSet(D) ==
   /\ Step
   /\ UNCHANGED <<disk, shared, dead>>
 
-Scan(d) == d \in shared /\ ScanSet({d}) /\ fresh' = FALSE
+Scan(d) == Quiet /\ Same /\ d \in shared /\ ScanSet({d}) /\ fresh' = FALSE
 \* manager.py:621-648  scan(): every shared directory
-ScanAll == ScanSet(shared) /\ fresh' = TRUE
+ScanAll == Quiet /\ Same /\ ScanSet(shared) /\ fresh' = TRUE
+
+\* The same two operations in two steps.  ScanBegin: scan_directory_files runs up to
+\* `await loop.run_in_executor(...)` (manager.py:545): nothing of the index has changed.
+\* ScanEnd: the walk finishes (it sees the disk as it is then; the shared children to skip were
+\* fixed at the start, and cannot have changed) and its result is applied in one stretch.
+ScanBegin(d) ==
+  /\ Quiet /\ d \in shared
+  /\ scanning' = {d} /\ scanAll' = FALSE
+  /\ fresh' = FALSE /\ Step
+  /\ UNCHANGED <<disk, shared, items, tm, dead>>
+ScanBeginAll ==
+  /\ Quiet /\ shared # {}
+  /\ scanning' = shared /\ scanAll' = TRUE
+  /\ fresh' = FALSE /\ Step
+  /\ UNCHANGED <<disk, shared, items, tm, dead>>
+ScanEnd ==
+  /\ ~Quiet
+  /\ ScanSet(scanning)
+  /\ fresh' = scanAll
+  /\ scanning' = {} /\ scanAll' = FALSE
 
 \* manager.py:234-262  load_from_settings: entries are added (with the moving rule, against
 \* the list that still contains the old directories) or updated in order; directories not
@@ -232,6 +266,7 @@ HandedOverItems(L) ==
   {[i EXCEPT !.d = Holder(i.f, R)] : i \in {j \in Folded(L) : j.d \notin R /\ Holders(j.f, R) # {}}}
 
 Load(L, handover) ==
+  /\ Quiet /\ Same
   /\ shared' = Range(L)
   /\ items' = IF handover THEN HandedOverItems(L) ELSE LoadedItems(L)
   /\ dead' = dead \cup Keys({i \in Folded(L) : i.d \notin Range(L)})
@@ -243,23 +278,24 @@ Load(L, handover) ==
 DiskCreate(f, v) ==
   /\ \A x \in disk : x.f # f
   /\ disk' = disk \cup {[f |-> f, v |-> v]}
-  /\ fresh' = FALSE /\ Step
+  /\ fresh' = FALSE /\ Step /\ Same
   /\ UNCHANGED <<shared, items, tm, dead>>
 
 DiskDelete(f) ==
   /\ \E x \in disk : x.f = f
   /\ disk' = {x \in disk : x.f # f}
-  /\ fresh' = FALSE /\ Step
+  /\ fresh' = FALSE /\ Step /\ Same
   /\ UNCHANGED <<shared, items, tm, dead>>
 
 Touch(f, v) ==
   /\ \E x \in disk : x.f = f /\ x.v # v
   /\ disk' = {x \in disk : x.f # f} \cup {[f |-> f, v |-> v]}
-  /\ fresh' = FALSE /\ Step
+  /\ fresh' = FALSE /\ Step /\ Same
   /\ UNCHANGED <<shared, items, tm, dead>>
 
 \* the caller drops the removed directory objects and the garbage collector runs
 Collect ==
+  /\ Quiet /\ Same
   /\ dead # {}
   /\ dead' = {}
   /\ tm' = tm \cap Keys(items)
@@ -272,6 +308,9 @@ Next ==
   \/ \E d \in Dirs : Update(d)
   \/ \E d \in Dirs : Scan(d)
   \/ ScanAll
+  \/ \E d \in Dirs : ScanBegin(d)
+  \/ ScanBeginAll
+  \/ ScanEnd
   \/ \E L \in SettingsLists : Load(L, FALSE)
   \/ \E f \in Files : DiskDelete(f)
   \/ \E f \in Files, v \in 1..MaxVer : DiskCreate(f, v)
@@ -341,6 +380,7 @@ IndexKeys == Keys(items)
 TypeOK ==
   /\ \A i \in items : i.d \in shared /\ IsUnder(i.f, i.own) /\ i.q = QPathOf(i.f, i.own)
   /\ \A x \in disk, y \in disk : x.f = y.f => x = y
+  /\ scanning \subseteq shared /\ (scanAll => scanning = shared /\ scanning # {})
 
 \* a query returns precisely the matching shared files, capped
 QueryExact ==
@@ -410,7 +450,7 @@ InitMatch ==
   /\ \E x \in MatchNames, y \in MatchNames : items = {MatchItem(x), MatchItem(y)}
   /\ disk = {[f |-> i.f, v |-> i.v] : i \in items}
   /\ shared = {<<nP>>} /\ tm = Keys(items) /\ dead = {}
-  /\ fresh = TRUE /\ n = 0
+  /\ fresh = TRUE /\ n = 0 /\ scanning = {} /\ scanAll = FALSE
 SpecMatch == InitMatch /\ [][UNCHANGED vars]_vars
 MC_QueriesM == {
   <<100>>, <<101>>, <<102, 102>>, <<100, 102>>,                  \* a  A  bb  ab
